@@ -250,7 +250,17 @@ func (g *Gen) zero(t types.Type) string {
 		}
 		return "(mk." + s + " " + strings.Join(fs, " ") + ")"
 	case *types.Array:
-		return fmt.Sprintf("((as const %s) %s)", g.sortOf(t), g.zero(tt.Elem()))
+		ez := g.zero(tt.Elem())
+		if strings.Contains(ez, "lit.") {
+			// string literals are uninterpreted constants, which cvc5 does not accept in a constant array:
+			// name the array and state its contents
+			g.nfresh++
+			n := fmt.Sprintf("arr0!%d", g.nfresh)
+			g.emit("(declare-const %s %s)", n, g.sortOf(t))
+			g.emit("(assert (forall ((i %s)) (! (= (select %s i) %s) :pattern ((select %s i)))))", g.idxSort(), n, ez, n)
+			return n
+		}
+		return fmt.Sprintf("((as const %s) %s)", g.sortOf(t), ez)
 	}
 	return "0"
 }
